@@ -909,6 +909,31 @@ func (e *fnEnc) recoverBlock() {
 			}
 		}
 	}
+	// the activation's own variables that no other function can reach and that
+	// this function does not store to after the defer statement still hold
+	// what they held then (e.g. the cell of a parameter captured by the
+	// deferred literal), whatever the callees did to the shared heaps
+	stored := e.storedAfter(first.instr)
+	for _, al := range e.nonEscapingAllocs() {
+		if stored[al] {
+			continue
+		}
+		t, ok := e.val[al]
+		if !ok || len(t) == 0 {
+			continue
+		}
+		pt := al.Type().Underlying().(*types.Pointer).Elem()
+		for _, cell := range e.allocCells(t[0].S, pt) {
+			hi := e.U.heaps[cell[0]]
+			if hi == nil {
+				continue
+			}
+			a, b2 := e.heapTermIn(first.heap)(hi), e.curHeapTerm(hi)
+			if a != b2 {
+				e.assert(fmt.Sprintf("(= (select %s %s) (select %s %s))", b2, cell[1], a, cell[1]))
+			}
+		}
+	}
 	for i := len(e.deferInfos) - 1; i >= 0; i-- {
 		e.applyDeferred(e.deferInfos[i], true)
 	}
@@ -917,4 +942,34 @@ func (e *fnEnc) recoverBlock() {
 		e.instr(in)
 	}
 	e.inRecover = false
+}
+
+// storedAfter: the Allocs of this function that an instruction reachable after
+// `from` stores to (directly or through a field address).
+func (e *fnEnc) storedAfter(from ssa.Instruction) map[*ssa.Alloc]bool {
+	out := map[*ssa.Alloc]bool{}
+	seen := map[*ssa.BasicBlock]bool{}
+	var visit func(b *ssa.BasicBlock, start int)
+	visit = func(b *ssa.BasicBlock, start int) {
+		for i := start; i < len(b.Instrs); i++ {
+			if st, ok := b.Instrs[i].(*ssa.Store); ok {
+				if al, isAl := rootOf(st.Addr).(*ssa.Alloc); isAl {
+					out[al] = true
+				}
+			}
+		}
+		for _, s := range b.Succs {
+			if !seen[s] {
+				seen[s] = true
+				visit(s, 0)
+			}
+		}
+	}
+	b := from.Block()
+	for i, in := range b.Instrs {
+		if in == from {
+			visit(b, i+1)
+		}
+	}
+	return out
 }
